@@ -18,7 +18,7 @@ from earthkit.workflows.graph import Graph, Node  # noqa: E402
 ADVERSARIAL = "abmni.-:_"
 ATTR_NAMES = ["name", "payload", "inputs", "outputs", "copy"]
 PARAM_NAMES = ["node", "n", "s", "p"]
-OUT_NAMES = ["0", "1", "x", "out"]
+OUT_NAMES = ["0", "1", "x", "out", "10", "2"]
 IN_NAMES = ["a", "b", "x", "input", "in0"]
 
 json_payloads = st.one_of(
